@@ -109,7 +109,7 @@ def specCommaList (s : List Char) : Option (List BoF) :=
 
 /-! ## the format string: lexer -/
 
-inductive Tok where
+inductive LexTok where
   | lbrace2
   | rbrace2
   | lbrace
@@ -117,11 +117,11 @@ inductive Tok where
   | chr (c : Char)
   deriving DecidableEq, Repr
 
-def tokOfChar (c : Char) : Tok :=
+def tokOfChar (c : Char) : LexTok :=
   if c = '{' then .lbrace else if c = '}' then .rbrace else .chr c
 
 /-- left-to-right, maximal munch -/
-def lex : List Char → List Tok
+def lex : List Char → List LexTok
   | [] => []
   | [c] => [tokOfChar c]
   | c :: d :: t =>
@@ -131,7 +131,7 @@ def lex : List Char → List Tok
 termination_by structural l => l
 
 /-- the characters a token was read from -/
-def Tok.raw : Tok → List Char
+def LexTok.raw : LexTok → List Char
   | .lbrace2 => ['{', '{']
   | .rbrace2 => ['}', '}']
   | .lbrace => ['{']
@@ -139,7 +139,7 @@ def Tok.raw : Tok → List Char
   | .chr c => [c]
 
 /-- the character a token of literal text stands for -/
-def Tok.literal : Tok → Char
+def LexTok.literal : LexTok → Char
   | .lbrace2 => '{'
   | .rbrace2 => '}'
   | .lbrace => '{'
@@ -157,18 +157,18 @@ def substEscape (e r : Char) : List Char → List Char
 termination_by structural l => l
 
 /-- literal text: braces token-wise, then `\n`, then `\t`, then UTF-8 -/
-def unescapeLiteral (lit : List Tok) : Bytes :=
-  utf8 (substEscape 't' '\t' (substEscape 'n' '\n' (lit.map Tok.literal)))
+def unescapeLiteral (lit : List LexTok) : Bytes :=
+  utf8 (substEscape 't' '\t' (substEscape 'n' '\n' (lit.map LexTok.literal)))
 
 /-- an empty run of literal text produces nothing -/
-def fillerOf (lit : List Tok) : List BoF :=
+def fillerOf (lit : List LexTok) : List BoF :=
   if lit = [] then [] else [BoF.filler (unescapeLiteral lit)]
 
 /-! ## the format string: token-level parser -/
 
 mutual
 /-- outside braces; `lit` is the literal text read since the last `}` -/
-def parseOutside (lit : List Tok) : List Tok → Option (List BoF)
+def parseOutside (lit : List LexTok) : List LexTok → Option (List BoF)
   | [] => some (fillerOf lit)
   | .lbrace2 :: t => parseOutside (lit ++ [.lbrace2]) t
   | .rbrace2 :: t => parseOutside (lit ++ [.rbrace2]) t
@@ -176,7 +176,7 @@ def parseOutside (lit : List Tok) : List Tok → Option (List BoF)
   | .rbrace :: _ => none
   | .lbrace :: t => (parseBody [] t).map fun rest => fillerOf lit ++ rest
 /-- inside `{ … }`; `body` is the raw text read since the `{` -/
-def parseBody (body : List Char) : List Tok → Option (List BoF)
+def parseBody (body : List Char) : List LexTok → Option (List BoF)
   | [] => none
   | .lbrace :: _ => none
   | .rbrace :: t =>
@@ -188,7 +188,7 @@ def parseBody (body : List Char) : List Tok → Option (List BoF)
   | .chr c :: t => parseBody (body ++ [c]) t
 end
 
-def parseToks (ts : List Tok) : Option (List BoF) := parseOutside [] ts
+def parseToks (ts : List LexTok) : Option (List BoF) := parseOutside [] ts
 
 /-! ## the whole argument -/
 
